@@ -800,9 +800,6 @@ func (w *World) initAllowed(path string) bool {
 		return true
 	}
 	if isRepoPkg(path) {
-		if strings.HasSuffix(path, "/diam/dict") {
-			return w.cfg.Params["init_dict"] != 0
-		}
 		return true
 	}
 	return false
